@@ -91,6 +91,7 @@ func runC04(r *Run) {
 	r.checkAfterFull(P)
 	// a later recover must not be ordered before the deactivate it competes with
 	r.checkChrono(P, "sortOperations@processor", r.fn(P, pkgProcessor, "sortOperations"))
+	r.checkSortedBeforeGroup(P)
 	// coordinates threading (shared with C03.full.then.update)
 	r.checkFullThenUpdate(P)
 }
